@@ -44,7 +44,6 @@ func truncDiv(amount uint64, rate int64) *big.Int {
 	return p.Quo(p, big.NewInt(1_000_000)) // Quo truncates toward zero
 }
 
-
 func TestC27PremiumRates(t *testing.T) {
 	col := stats.Get("C27.premium")
 	dir := fastTempDir("c27")
